@@ -13,6 +13,7 @@ import (
 const (
 	ExE = "http://data.example.org/things/"
 	ExS = "http://data.example.org/schema/"
+	ExT = "http://data.example.org/t/" // a third namespace: listed as public before anybody uses it (C15)
 	MkE = "<E>"
 	MkS = "<S>"
 )
